@@ -191,16 +191,19 @@ def setup_task_paths(paths_in, paths_out, allowed_input_suffixes):
     for ii, po in enumerate(paths_out):
         if po.suffix != ".rtdc":
             paths_out[ii] = po.with_name(po.name + ".rtdc")
+    paths_temp = [po.with_suffix(".rtdc~") for po in paths_out]
     # Never touch an input file: refuse output paths (after suffix
-    # correction) that point to one of the input files.
+    # correction) and temporary paths that point to one of the input files.
     resolved_in = [pi.resolve() for pi in paths_in]
-    for po in paths_out:
+    for po, pt in zip(paths_out, paths_temp):
         if po.resolve() in resolved_in:
             raise ValueError(f"Output path '{po}' is identical to an input "
                              f"path, refusing to overwrite the input!")
+        if pt.resolve() in resolved_in:
+            raise ValueError(f"Temporary path '{pt}' for output path '{po}' "
+                             f"is identical to an input path, refusing to "
+                             f"overwrite the input!")
     [po.unlink() for po in paths_out if po.exists()]
-
-    paths_temp = [po.with_suffix(".rtdc~") for po in paths_out]
     [pt.unlink() for pt in paths_temp if pt.exists()]
 
     # convert lists back to paths
